@@ -320,6 +320,21 @@ def judge(driver, ops, exps, out, err, returncode, known=None):
         res = got.get("RES", "")
         if "UNKNOWN-OP" in res:
             return vs, "driver does not know op %s" % op[0], stats
+        if e.get("grow_check") and "GROW" in res:
+            toks = res.split()
+            cut = toks.index("[REFS]") if "[REFS]" in toks else len(toks)
+            nums = [int(x) for x in toks[:cut] if x.lstrip("-").isdigit()][-6:]
+            refs = [int(x) for x in toks[cut:] if x.lstrip("-").isdigit()][-6:]
+            if len(refs) == 6 and refs[1] != refs[5] and (refs[5] - refs[1]) == 4 * (refs[2] - refs[1]):
+                v = {"inv": "I6.4-python-refcount-drift", "kind": "leaked" if refs[5] > refs[1] else "over-released",
+                     "op_index": k, "op": op[0], "detail": {"argument_refcount_sum_after_each_of_6_calls": refs}}
+                if not is_known(v):
+                    vs.append(v)
+            if len(nums) == 6 and nums[3] < nums[4] < nums[5] and nums[2] < nums[3]:
+                v = {"inv": "I6.4-python-heap-grows", "kind": "repeated-call", "op_index": k, "op": op[0],
+                     "detail": {"wrapper_phase_blocks_after_each_of_6_calls": nums}}
+                if not is_known(v):
+                    vs.append(v)
         if "UNEXPECTED" in res and e["res"] is None:
             return vs, None if vs else "fault op ended in an unexpected driver exception: " + res[:120], stats
         live = sorted(int(x) for x in got.get("LIVE", "").split())
